@@ -99,6 +99,13 @@ def seeded(name, pids, tier='quick'):
                 print('           %s' % s[:150])
             if rc == 2:
                 print(text[-600:])
+            # keep the seed's record current: which checks detect it now (quick tier, this tree)
+            mp = os.path.join(d, 'meta.json')
+            meta = json.load(open(mp))
+            meta.setdefault('results', {})[pid] = {'exit': rc, 'signatures': sigs[:5]}
+            if pid not in meta.get('checks', []):
+                meta.setdefault('checks', []).append(pid)
+            json.dump(meta, open(mp, 'w'), indent=1)
     finally:
         shutil.rmtree(root, ignore_errors=True)
 
